@@ -2,24 +2,24 @@
 # Confirm a sub-agent's seeded change in its scratch worktree /tmp/seed/<ID>:
 #   demo fails with the change, passes without; the unedited test-suite passes with the change.
 # Then archive it under /verif/seeded/<ID>/ (patch.diff, demo.py, notes.md, meta.json).
-ID=$1; WT=/tmp/seed/$ID; OUT=/verif/seeded/$ID
+ID=$1; ROUND=${2:-1}; if [ "$ROUND" = "2" ]; then WT=/tmp/seed2/$ID; OUT=/verif/seeded/${ID}b; else WT=/tmp/seed/$ID; OUT=/verif/seeded/$ID; fi
 set -u
 cd $WT || exit 2
 [ -f SEEDED/patch.diff ] || { echo "$ID: no patch"; exit 2; }
-git diff -- src > /tmp/seed/$ID.current.diff
-if ! diff -q /tmp/seed/$ID.current.diff SEEDED/patch.diff >/dev/null; then echo "$ID: NOTE patch.diff differs from applied diff; using applied diff"; fi
-run_demo() { (cd $WT && PYTHONPATH=$WT/src timeout 1500 /venv/bin/python SEEDED/demo.py > /tmp/seed/$ID.demo.$1.log 2>&1; echo $?); }
+git diff -- src > /tmp/seed-$ROUND-$ID.current.diff
+if ! diff -q /tmp/seed-$ROUND-$ID.current.diff SEEDED/patch.diff >/dev/null; then echo "$ID: NOTE patch.diff differs from applied diff; using applied diff"; fi
+run_demo() { (cd $WT && PYTHONPATH=$WT/src timeout 1500 /venv/bin/python SEEDED/demo.py > /tmp/seed-$ROUND-$ID.demo.$1.log 2>&1; echo $?); }
 with=$(run_demo with)
 git checkout -q -- src          # (no git stash: the stash is shared between worktrees of one repository)
 without=$(run_demo without)
-git apply /tmp/seed/$ID.current.diff
-git diff -- src > /tmp/seed/$ID.after.diff
-cmp -s /tmp/seed/$ID.current.diff /tmp/seed/$ID.after.diff || { echo "$ID: worktree state changed"; exit 2; }
+git apply /tmp/seed-$ROUND-$ID.current.diff
+git diff -- src > /tmp/seed-$ROUND-$ID.after.diff
+cmp -s /tmp/seed-$ROUND-$ID.current.diff /tmp/seed-$ROUND-$ID.after.diff || { echo "$ID: worktree state changed"; exit 2; }
 suite=$(cd $WT && PYTHONPATH=$WT/src /venv/bin/python -m pytest -q -p no:cacheprovider -n 8 --timeout=900 2>&1 | tail -1)
 touched=$(git status --porcelain -- tests | wc -l)
 echo "$ID demo_with=$with demo_without=$without tests_touched=$touched suite='$suite'"
 if [ "$with" != "0" ] && [ "$without" = "0" ] && [ "$touched" = "0" ] && echo "$suite" | grep -q "74 passed" && ! echo "$suite" | grep -q failed; then
-  mkdir -p $OUT; cp /tmp/seed/$ID.current.diff $OUT/patch.diff; cp SEEDED/demo.py $OUT/demo.py; cp SEEDED/notes.md $OUT/notes.md 2>/dev/null
+  mkdir -p $OUT; cp /tmp/seed-$ROUND-$ID.current.diff $OUT/patch.diff; cp SEEDED/demo.py $OUT/demo.py; cp SEEDED/notes.md $OUT/notes.md 2>/dev/null
   echo "$ID CONFIRMED"
 else
   echo "$ID NOT CONFIRMED"; exit 1
